@@ -2,8 +2,12 @@ package props
 
 import (
 	"bytes"
+	"context"
 	"fmt"
+	"github.com/c2FmZQ/ech"
 	"math/rand/v2"
+	"sync"
+	"sync/atomic"
 
 	"verifharness/connh"
 	"verifharness/core"
@@ -200,6 +204,55 @@ func genC09(env *core.Env, emit func(core.Case)) {
 		do([]int{2, 7, 8, 0})
 		do([]int{2, 7, 8, 9, 0})
 		do([]int{1, 2, 7, 8, 9, 6, 0})
+	}
+	// a server handles its connections concurrently: with several held keys under one config id, every
+	// hello sealed to any of them is accepted on every goroutine (nothing the trial decryptions of one
+	// connection compute is visible to another)
+	{
+		id := uint8(r.IntN(256))
+		kA := gen.NewKey(r, id, "public.example", gen.AllSuites)
+		kB := gen.NewKey(r, id, "public.example", gen.AllSuites)
+		kC := gen.NewKey(r, id+1, "public.example", gen.AllSuites)
+		keys := echKeys(kA, kB, kC)
+		type job struct{ rec []byte }
+		var jobs []job
+		for i := 0; i < env.Pick(240, 2400); i++ {
+			o := gen.PlanOpts{NOuterOpaque: 2, NInnerOpaque: 1, MaxExtLen: 20, Padding: 4, SIDLen: 32, RefMask: 1, MarkerPos: 1, InnerName: "inner.example", ALPN: []string{"h2"}, PublicName: "public.example"}
+			plan := gen.Plan(r, o)
+			target := []*gen.KeyMat{kA, kB, kC}[i%3]
+			jobs = append(jobs, job{gen.Seal(plan.OuterBase, 1, target, gen.AllSuites[i%3], plan.Enc.Body(), nil, 0x0301).Rec})
+		}
+		var rejected, failed atomic.Int64
+		var wg sync.WaitGroup
+		for g := 0; g < 8; g++ {
+			wg.Add(1)
+			go func(g int) {
+				defer wg.Done()
+				defer func() {
+					if rec := recover(); rec != nil {
+						failed.Add(1)
+					}
+				}()
+				for i := g; i < len(jobs); i += 8 {
+					fk := &connh.FakeConn{Chunks: [][]byte{jobs[i].rec}, Fin: "eof"}
+					c, err := ech.NewConn(context.Background(), fk, ech.WithKeys(keys))
+					if err != nil {
+						failed.Add(1)
+					} else if !c.ECHAccepted() {
+						rejected.Add(1)
+					}
+				}
+			}(g)
+		}
+		wg.Wait()
+		w := ""
+		if rejected.Load() > 0 || failed.Load() > 0 {
+			w = fmt.Sprintf("%d connections served concurrently with keys [A B C] (A, B under one config id), hellos sealed to held keys: %d not accepted, %d failed", len(jobs), rejected.Load(), failed.Load())
+		}
+		emit(core.Case{Name: "concurrent/1", Stream: "concurrent", Key: "concurrent",
+			Ops: []core.Op{{Kind: 'X', Note: "holding the key => accepted, also when connections are served concurrently", Want: w}},
+			Sig: "concurrent", Sample: map[string]any{"connections": len(jobs), "goroutines": 8}})
+		env.Count("concurrent")
 	}
 	env.Exhaustive(fmt.Sprintf("all ordered key lists of length 1..%d without repetition from the 6-key pool, for every generated hello, first and retried", maxLen))
 	_ = rand.Int
